@@ -13,7 +13,8 @@
    CharacterData::parse_float                  parse_float
    CharacterData::parse_bool                   parse_bool
    <T as TryFrom<u64>>::try_from               try_from_u64
-   `v as f64` for v : u64                      u64_as_f64    (round to nearest, ties to even, 53 bits)
+   `v as f64` for v : u64                      u64_as_f64    (Value/F64.v: round to nearest, ties to even, 53 bits)
+   float_from_radix_digits                     float_from_radix_digits (step_bit, digit_bits, radix_loop, f64_scale2)
    str::parse::<f64>                           f64_from_str  (inf/nan spellings modelled, decimal numbers = ORACLE)
    f64::to_string                              f64_to_string (NaN/inf modelled, finite numbers = ORACLE)
 
@@ -102,13 +103,6 @@ Fixpoint strip_prefix (p s : list N) : option (list N) :=
 (* T::try_from(v).ok() for v : u64 *)
 Definition try_from_u64 (signed : bool) (bits : N) (v : N) : option Z := checked signed bits (Z.of_N v).
 
-(* u64::from_str_radix(s, radix).ok() *)
-Definition u64_from_str_radix (radix : N) (s : list N) : option N :=
-  match from_str_radix false 64 radix s with
-  | Some z => Some (Z.to_N z)
-  | None => None
-  end.
-
 Definition USIZE_MAX : N := 18446744073709551615.
 
 (* s.len() <= max_length.unwrap_or(usize::MAX) *)
@@ -155,31 +149,72 @@ Definition parse_integer (signed : bool) (bits : N) (d : cdata) : option Z :=
   | _ => None
   end.
 
-(* text.strip_prefix(p).and_then(|t| u64::from_str_radix(t, radix).ok()) *)
-Definition prefixed_u64 (p : list N) (radix : N) (text : list N) : option N :=
+(* ---- fn float_from_radix_digits(digits, bits_per_digit) ----
+   state (mantissa, dropped_bits, sticky); per bit, most significant first:
+     if mantissa >> 63 == 0 { mantissa = (mantissa << 1) | bit }
+     else { dropped_bits += 1; sticky |= bit == 1 }
+   (dropped_bits is an i32 with saturating_add; it cannot saturate for texts shorter than 2^31 bits,
+    the model counts in N) *)
+Definition step_bit (a : N * N * bool) (bit : N) : N * N * bool :=
+  let '(m, dr, st) := a in
+  if m / P63 =? 0 then (2 * m + bit, dr, st) else (m, dr + 1, st || (bit =? 1)).
+
+(* (digit >> pos) & 1 for pos = n-1 .. 0 *)
+Fixpoint digit_bits (n : nat) (d : N) : list N :=
+  match n with O => [] | S k => ((d / 2 ^ N.of_nat k) mod 2) :: digit_bits k d end.
+
+(* for c in digits.chars() { let digit = c.to_digit(1 << bits_per_digit)?; ... } *)
+Fixpoint radix_loop (bpd : nat) (ds : list N) (a : N * N * bool) : option (N * N * bool) :=
+  match ds with
+  | [] => Some a
+  | c :: r =>
+      match digit_val (2 ^ N.of_nat bpd) c with
+      | None => None
+      | Some d => radix_loop bpd r (fold_left step_bit (digit_bits bpd d) a)
+      end
+  end.
+
+(* x * 2f64.powi(n) for x = +0 or a positive normal x and n >= 0: IEEE multiplication by a power of two is
+   exact (the exponent field grows by n) unless the result leaves the finite range, then it is +infinity;
+   2f64.powi(n) itself is +infinity for n >= 1024, and x is not zero then *)
+Definition f64_scale2 (b n : N) : N :=
+  if b =? 0 then 0 else if f64_exp b + n <? 2047 then b + n * P52 else F64_INF.
+
+Definition float_from_radix_digits (bpd : nat) (ds : list N) : option N :=
+  if is_nil ds then None
+  else match radix_loop bpd ds (0, 0, false) with
+       | None => None
+       | Some (m, dr, st) => Some (f64_scale2 (u64_as_f64 (N.lor m (if st then 1 else 0))) dr)
+       end.
+
+(* text.strip_prefix(p).and_then(|t| float_from_radix_digits(t, bits_per_digit)) *)
+Definition prefixed_f64 (p : list N) (bpd : nat) (text : list N) : option N :=
   match strip_prefix p text with
-  | Some t => u64_from_str_radix radix t
+  | Some t => float_from_radix_digits bpd t
   | None => None
   end.
+
+(* v.is_finite().then_some(v) *)
+Definition finite_or_none (v : N) : option N := if f64_is_finite v then Some v else None.
 
 Definition parse_float (d : cdata) : option N :=
   match d with
   | DString text =>
       if bytes_eqb text T0 then Some F64_ZERO
-      else match prefixed_u64 T0x 16 text with
-      | Some hexval => Some (u64_as_f64 hexval)
+      else match prefixed_f64 T0x 4 text with
+      | Some hexval => finite_or_none hexval
       | None =>
-      match prefixed_u64 T0X 16 text with
-      | Some hexval => Some (u64_as_f64 hexval)
+      match prefixed_f64 T0X 4 text with
+      | Some hexval => finite_or_none hexval
       | None =>
-      match prefixed_u64 T0b 2 text with
-      | Some binval => Some (u64_as_f64 binval)
+      match prefixed_f64 T0b 1 text with
+      | Some binval => finite_or_none binval
       | None =>
-      match prefixed_u64 T0B 2 text with
-      | Some binval => Some (u64_as_f64 binval)
+      match prefixed_f64 T0B 1 text with
+      | Some binval => finite_or_none binval
       | None =>
-      match prefixed_u64 T0 8 text with
-      | Some octval => Some (u64_as_f64 octval)
+      match prefixed_f64 T0 3 text with
+      | Some octval => finite_or_none octval
       | None => f64_from_str text                       (* normal float conversion *)
       end end end end end
   | DFloat value => Some value
@@ -332,9 +367,12 @@ Example parse_float_ex :
    parse_float no_dec (DString (BS "0777")), parse_float no_dec (DString (BS "0B1101")),
    parse_float no_dec (DString (BS "INF")), parse_float no_dec (DString (BS "-INF")),
    parse_float no_dec (DString (BS "NaN")), parse_float no_dec (DString (BS "0x1ffffffffffffffff")),
-   parse_float no_dec (DUInt 5), parse_float no_dec (DEnum 3))
+   parse_float no_dec (DUInt 5), parse_float no_dec (DEnum 3),
+   parse_float no_dec (DString (BS "02000000000000000000000")), parse_float no_dec (DString (BS "0x10000000000000801")),
+   parse_float no_dec (DString (BS "0x+1")), parse_float no_dec (DString (BS "00.12")))
   = (Some 0, Some 4661845738886529024, Some 4647697223260307456, Some 4623507967449235456,
-     Some F64_INF, Some F64_NEG_INF, Some F64_NAN, None, Some 4617315517961601024, None).
+     Some F64_INF, Some F64_NEG_INF, Some F64_NAN, Some 4899916394579099648, Some 4617315517961601024, None,
+     Some 4895412794951729152, Some 4895412794951729153, None, None).
 Proof. vm_compute. reflexivity. Qed.
 
 Example parse_bool_ex :
